@@ -5,6 +5,7 @@ package main
 import (
 	"bytes"
 	"crypto/sha256"
+	"encoding/hex"
 	"fmt"
 	"math/big"
 	"strconv"
@@ -18,6 +19,7 @@ import (
 	rvole_softspoken "github.com/bronlabs/bron-crypto/pkg/mpc/rvole/softspoken"
 	"github.com/bronlabs/bron-crypto/pkg/ot/base/ecbbot"
 	"github.com/bronlabs/bron-crypto/pkg/ot/base/vsot"
+	"github.com/bronlabs/bron-crypto/pkg/transcripts"
 
 	"verif/harness/internal/vh"
 )
@@ -430,6 +432,15 @@ type rvObs struct {
 	xi, rho int
 	beta    []byte
 	verdict string // for the tamper (or honest): "1" ok, "0" abort, "P" panic, "V" rejected by validation
+	// rvs only, honest run: the values the multiplication ran on, recovered through the public API
+	// (recording hash function, replicated PRG/gadget derivation, validated against b and ATilde); nil if not recoverable
+	deriv     *rvDeriv
+	derivNote string
+}
+
+type rvDeriv struct {
+	g, ahat        []*big.Int
+	a0, a1, atilde [][]*big.Int
 }
 
 func scalarsOf[S algebra.PrimeFieldElement[S]](field algebra.PrimeField[S], xs []*big.Int) []S {
@@ -497,6 +508,7 @@ func rvRun[P curves.Point[P, B, S], B algebra.FieldElement[B], S algebra.PrimeFi
 	add := func(s S, dl *big.Int) S { return s.Add(scalarsOf(field, []*big.Int{dl})[0]) }
 	var b S
 	var c, dd []S
+	var r2hon [][]S
 	if variant == "rvb" {
 		if p := vh.Safely(func() {
 			suite, err := rvole_bbot.NewSuite(l, curve)
@@ -558,22 +570,35 @@ func rvRun[P curves.Point[P, B, S], B algebra.FieldElement[B], S algebra.PrimeFi
 		}
 	} else {
 		if p := vh.Safely(func() {
-			suite, err := rvole_softspoken.NewSuite(l, curve, sha256.New)
+			var alog, blog []hrec
+			ha, hb := sha256.New, sha256.New
+			if t == nil {
+				ha, hb = recSha256(&alog), recSha256(&blog)
+			}
+			suite, err := rvole_softspoken.NewSuite(l, curve, ha)
 			if err != nil {
 				o.err = "suite"
 				return
 			}
+			suiteB, _ := rvole_softspoken.NewSuite(l, curve, hb)
 			sd := synthSeeds(rngFor(d, "rv-seeds"), "rand")
 			alice, err := rvole_softspoken.NewAlice(ctxs[1], suite, sd.receiver(), alicePrng)
 			if err != nil {
 				o.err = "new-alice"
 				return
 			}
-			bob, err := rvole_softspoken.NewBob(ctxs[2], suite, sd.sender(), bobPrng)
+			gt := ctxs[2].Transcript().Clone()
+			sidB := ctxs[2].SessionID()
+			bob, err := rvole_softspoken.NewBob(ctxs[2], suiteB, sd.sender(), bobPrng)
 			if err != nil {
 				o.err = "new-bob"
 				return
 			}
+			defer func() {
+				if t == nil && o.err == "" && dd != nil && r2hon != nil {
+					o.deriv, o.derivNote = rvsDerive(field, gt, sidB[:], sd, o.beta, l, o.rho, o.xi, alog, blog, b, r2hon)
+				}
+			}()
 			r1, bb, err := bob.Round1()
 			if err != nil {
 				o.err = "round1"
@@ -586,6 +611,12 @@ func rvRun[P curves.Point[P, B, S], B algebra.FieldElement[B], S algebra.PrimeFi
 				return
 			}
 			c = cc
+			if t == nil {
+				r2hon = make([][]S, len(r2.ATilde))
+				for j := range r2.ATilde {
+					r2hon[j] = append([]S{}, r2.ATilde[j]...)
+				}
+			}
 			if t != nil {
 				switch t.what[0] {
 				case 'A':
@@ -621,6 +652,106 @@ func rvRun[P curves.Point[P, B, S], B algebra.FieldElement[B], S algebra.PrimeFi
 		o.d = bigsOf(dd)
 	}
 	return o
+}
+
+// rvsDerive recovers, for an honest rvole/softspoken run, the gadget vector g, the OT sender messages alpha0/alpha1
+// (as field elements) and Alice's aHat, using only public API values: the seeds and session id the harness chose,
+// the digests/preimages seen by the suite's hash function, field.Hash/FromWideBytes, and a clone of Bob's transcript
+// taken before NewBob.  The PRG expansion and the two labels are replicated, so the result is validated
+// (b = sum beta_j g_j, ATilde = alpha0 - alpha1 + a||aHat is checked by the caller through the model) and
+// an unrecoverable value only yields a note.
+func rvsDerive[S algebra.PrimeFieldElement[S]](field algebra.PrimeField[S], gt transcripts.Transcript, sid []byte, sd seeds,
+	beta []byte, l, rho, xi int, alog, blog []hrec, b S, atilde [][]S) (*rvDeriv, string) {
+	L := l + rho
+	eta := xi * L
+	nb := eta/8 + 16
+	t0 := make([][]byte, 128)
+	for i := range t0 {
+		t0[i] = expandPRG(sid, nb, i, sd.m0[i], 0)
+	}
+	index := func(log []hrec) map[string][]byte {
+		m := map[string][]byte{}
+		for _, r := range log {
+			if len(r.pre) >= 16 {
+				m[string(r.pre[len(r.pre)-16:])] = r.out
+			}
+		}
+		return m
+	}
+	ai, bi := index(alog), index(blog)
+	toF := func(dg []byte) *big.Int {
+		s, err := field.Hash(dg)
+		if err != nil {
+			return nil
+		}
+		return new(big.Int).SetBytes(s.Bytes())
+	}
+	dv := &rvDeriv{}
+	q := field.Order().Big()
+	for j := 0; j < xi; j++ {
+		r0 := make([]*big.Int, L)
+		r1 := make([]*big.Int, L)
+		for ll := 0; ll < L; ll++ {
+			col := make([]byte, 16)
+			for i := 0; i < 128; i++ {
+				col[i/8] |= getBit(t0[i], j*L+ll) << (i % 8)
+			}
+			qcol := col
+			if getBit(beta, j) == 1 {
+				qcol = xorBytes(col, sd.delta)
+			}
+			d0, ok0 := ai[string(qcol)]
+			d1, ok1 := ai[string(xorBytes(qcol, sd.delta))]
+			dg, okg := bi[string(col)]
+			if !ok0 || !ok1 || !okg {
+				return nil, "OT columns not found among the hashed values"
+			}
+			r0[ll], r1[ll] = toF(d0), toF(d1)
+			gam := toF(dg)
+			sel := r0[ll]
+			if getBit(beta, j) == 1 {
+				sel = r1[ll]
+			}
+			if r0[ll] == nil || r1[ll] == nil || gam == nil || gam.Cmp(sel) != 0 {
+				return nil, "recovered OT messages are not correlated"
+			}
+		}
+		dv.a0 = append(dv.a0, r0)
+		dv.a1 = append(dv.a1, r1)
+	}
+	// gadget vector: the same extractions on a clone of Bob's transcript
+	hexsid := hex.EncodeToString(sid)
+	gt.AppendDomainSeparator("BRON_CRYPTO_SOFTSPOKEN_OT_MULTIPLY--" + hexsid)
+	gt.AppendDomainSeparator("BRON_CRYPTO_SOFTSPOKEN_OT--" + hexsid)
+	sum := new(big.Int)
+	for j := 0; j < xi; j++ {
+		bs, err := gt.ExtractBytes("BRON_CRYPTO_SOFTSPOKEN_OT_MULTIPLY-G-", uint(field.WideElementSize()))
+		if err != nil {
+			return nil, "gadget extraction failed"
+		}
+		gj, err := field.FromWideBytes(bs)
+		if err != nil {
+			return nil, "gadget extraction failed"
+		}
+		gb := new(big.Int).SetBytes(gj.Bytes())
+		dv.g = append(dv.g, gb)
+		if getBit(beta, j) == 1 {
+			sum.Add(sum, gb)
+		}
+	}
+	sum.Mod(sum, q)
+	if sum.Cmp(new(big.Int).SetBytes(b.Bytes())) != 0 {
+		return nil, "gadget vector not derivable from the transcript (b != sum beta_j g_j)"
+	}
+	for j := range atilde {
+		dv.atilde = append(dv.atilde, bigsOf(atilde[j]))
+	}
+	for k := 0; k < rho; k++ {
+		v := new(big.Int).Sub(dv.atilde[0][l+k], dv.a0[0][l+k])
+		v.Add(v, dv.a1[0][l+k])
+		dv.ahat = append(dv.ahat, v.Mod(v, q))
+	}
+	return dv, ""
 }
 
 func rvDispatch(d desc, t *rvTamper) rvObs {
@@ -666,8 +797,11 @@ func runRvole(d desc) outcome {
 	if bad := productOK(hon); bad != "" {
 		o.prop = append(o.prop, mm(d, "prop", d.kind+"-product", "vole_product (c_i + d_i = a_i * b)", bad, true))
 	}
-	betaZero := isZero(hon.beta)
-	if betaZero != (hon.b.Sign() == 0) {
+	// all beta_j = 0 is observable as b = 0 (b = sum beta_j g_j with transcript-derived g_j); the harness sets beta
+	// through the first bytes Bob reads from his prng - if that ever stops being the case the model comparison is skipped
+	betaZero := hon.b.Sign() == 0
+	betaKnown := isZero(hon.beta) == betaZero
+	if !betaKnown {
 		o.notes = append(o.notes, "Bob's choice bits are not the first bytes read from his prng ("+d.text()+"): beta-dependent predictions skipped")
 	}
 	// tampering: list "kind:delta;..." where kind = A<j>.<i> | E<k> | M<bit>
@@ -750,15 +884,32 @@ func runRvole(d desc) outcome {
 		bs.WriteByte('0' + getBit(hon.beta, j))
 	}
 	w := l + hon.rho
+	gS, a0S, a1S, ahatS := zlist(rnd(hon.xi)), rows(hon.xi, w), rows(hon.xi, w), zlist(rnd(hon.rho))
+	dv := hon.deriv
+	if !betaKnown {
+		dv = nil
+	}
+	if dv != nil {
+		zr := func(m [][]*big.Int) string {
+			p := make([]string, len(m))
+			for i := range m {
+				p[i] = zlist(m[i])
+			}
+			return strings.Join(p, ";")
+		}
+		gS, a0S, a1S, ahatS = zlist(dv.g), zr(dv.a0), zr(dv.a1), zlist(dv.ahat)
+	} else if d.kind == "rvs" {
+		o.notes = append(o.notes, "rvs: internal values not recoverable ("+hon.derivNote+") for "+d.text()+": model run on idealised values")
+	}
 	line := fmt.Sprintf("V 0 P=%s L=%d RHO=%d XI=%d A=%s G=%s BETA=%s A0=%s A1=%s AHAT=%s TH=%s THP=%s TAMPER=%s",
-		vh.ZHex(hon.q), l, hon.rho, hon.xi, zlist(hon.a), zlist(rnd(hon.xi)), bs.String(), rows(hon.xi, w), rows(hon.xi, w),
-		zlist(rnd(hon.rho)), rows(l, hon.rho), rows(l, hon.rho), strings.Join(tparts, ";"))
+		vh.ZHex(hon.q), l, hon.rho, hon.xi, zlist(hon.a), gS, bs.String(), a0S, a1S,
+		ahatS, rows(l, hon.rho), rows(l, hon.rho), strings.Join(tparts, ";"))
 	o.lines = []string{line}
 	pf := len(o.prop) > 0
 	o.cmp = func(outs []string) []vh.Mismatch {
 		var ms []vh.Mismatch
 		kv := kvOf(outs[0])
-		if betaZero == (hon.b.Sign() == 0) && kv["V"] != verdicts {
+		if betaKnown && kv["V"] != verdicts {
 			ms = append(ms, mm(d, "corr", d.kind+"-tamper-verdicts", "correspondence bob_round4 accept/abort (vole_mu_altered, vole_eta_altered, vole_atilde_altered_partial)",
 				"model "+kv["V"]+" impl "+verdicts+" for "+strings.Join(tparts, ";"), pf))
 		}
@@ -779,7 +930,27 @@ func runRvole(d desc) outcome {
 				ms = append(ms, mm(d, "corr", d.kind+"-model-product", "vole_product on the executable model", fmt.Sprintf("component %d", i), pf))
 			}
 		}
-		if (mb.Sign() == 0) != betaZero {
+		if dv != nil {
+			// the model, fed with the recovered gadget vector, OT messages and aHat, predicts every observable
+			// that does not depend on the random oracle: b, c, ATilde (whole matrix) and d
+			if kv["B"] != vh.ZHex(hon.b) {
+				ms = append(ms, mm(d, "corr", "rvs-b", "correspondence bob_b", "model "+kv["B"]+" impl "+vh.ZHex(hon.b), pf))
+			}
+			if kv["C"] != zlist(hon.c) {
+				ms = append(ms, mm(d, "corr", "rvs-c", "correspondence alice_c", "model "+kv["C"]+" impl "+zlist(hon.c), pf))
+			}
+			if kv["D"] != zlist(hon.d) {
+				ms = append(ms, mm(d, "corr", "rvs-d", "correspondence bob_d", "model "+kv["D"]+" impl "+zlist(hon.d), pf))
+			}
+			at := make([]string, len(dv.atilde))
+			for j := range dv.atilde {
+				at[j] = zlist(dv.atilde[j])
+			}
+			if kv["AT"] != strings.Join(at, ";") {
+				ms = append(ms, mm(d, "corr", "rvs-atilde", "correspondence alice_atilde", "model ATilde differs from Round2P2P.ATilde", pf))
+			}
+		}
+		if betaKnown && (mb.Sign() == 0) != betaZero {
 			ms = append(ms, mm(d, "corr", d.kind+"-model-b", "bob_b", "model b zero-ness differs from beta", pf))
 		}
 		return ms
@@ -795,8 +966,8 @@ func genRvole(thorough bool, n *int) []desc {
 	}
 	// bbot: every run is a full ecbbot batch (xi = kappa+160 instances of l+rho OTs); few cases, one alteration each
 	add("rvb", "curve", "k256", "l", "1", "a", "qm1", "beta", "rand", "tamper", "M")
-	add("rvb", "curve", "p256", "l", "1", "a", "rand", "beta", "zero", "tamper", "E:rand")
 	if thorough {
+		add("rvb", "curve", "p256", "l", "1", "a", "rand", "beta", "zero", "tamper", "E:rand")
 		add("rvb", "curve", "k256", "l", "2", "a", "mixed", "beta", "rand", "tamper", "Ain")
 		for _, c := range []string{"k256", "p256"} {
 			for _, as := range []string{"zero", "one", "qm1", "rand"} {
@@ -824,6 +995,18 @@ func genRvole(thorough bool, n *int) []desc {
 		add("rvs", "curve", c, "l", "3", "a", "rand", "beta", "one", "tamper", "E:rand;Ain;M")
 		for k := 0; k < reps; k++ {
 			add("rvs", "curve", c, "l", strconv.Itoa(1+k%3), "a", "rand", "beta", "rand", "tamper", "A:rand;E:rand;M;Acheck;Ain:qm1")
+		}
+		if thorough {
+			// every byte of Mu, every Eta entry, one entry of every ATilde column
+			var ts []string
+			for byteIdx := 0; byteIdx < 32; byteIdx++ {
+				ts = append(ts, fmt.Sprintf("M%d", byteIdx*8+byteIdx%8))
+			}
+			ts = append(ts, "E0:rand", "E1:rand", "E0:qm1", "E1")
+			for i := 0; i < 5; i++ {
+				ts = append(ts, fmt.Sprintf("A%d.%d:rand", 17*i+3, i))
+			}
+			add("rvs", "curve", c, "l", "3", "a", "rand", "beta", "rand", "tamper", strings.Join(ts, ";"))
 		}
 	}
 	return ds
